@@ -21,6 +21,7 @@ import (
 	"os"
 	"path/filepath"
 	"runtime"
+	"runtime/debug"
 	"sort"
 	"strconv"
 	"strings"
@@ -161,7 +162,19 @@ func keyScheme(i int) func(int) string {
 	}
 }
 
-const watchdog = 10 * time.Second
+// A call that never comes back costs one watchdog period; after the first one the period shrinks
+// and after a few the remaining histories are not run (what was recorded is evidence enough).
+var stuckSeen int32
+
+func watchdogPeriod() time.Duration {
+	if atomic.LoadInt32(&stuckSeen) > 0 {
+		return time.Second
+	}
+	return 10 * time.Second
+}
+
+func noteStuck()   { atomic.AddInt32(&stuckSeen, 1) }
+func giveUp() bool { return atomic.LoadInt32(&stuckSeen) >= 4 }
 
 type held struct {
 	m tr.E
@@ -229,7 +242,7 @@ func (s *sut) render() (inmut bool) {
 func (s *sut) get(ctx context.Context, a act) (r tr.E) {
 	defer func() {
 		if p := recover(); p != nil {
-			r = rp(fmt.Sprintf("panic: %v", p), 0)
+			r = onPanic(p)
 		}
 	}()
 	var fns []cache.GetOptFn
@@ -255,7 +268,7 @@ func (s *sut) do(a act) (r interface{}, inmut bool) {
 	inmut = true
 	defer func() {
 		if p := recover(); p != nil {
-			r = rp(fmt.Sprintf("panic: %v", p), 0)
+			r = onPanic(p)
 		}
 	}()
 	ctx := s.context()
@@ -346,13 +359,14 @@ func (s *sut) call(a act) (interface{}, bool) {
 		r, im := s.do(a)
 		ch <- res{r, im}
 	}()
-	t := time.NewTimer(watchdog)
+	t := time.NewTimer(watchdogPeriod())
 	defer t.Stop()
 	select {
 	case x := <-ch:
 		return x.r, x.im
 	case <-t.C:
 		s.dead = true
+		noteStuck()
 		if a.Op == "probe" {
 			rs := make([]tr.E, 0, len(a.Ks))
 			for range a.Ks {
@@ -627,6 +641,253 @@ func (f *fakeRedis) Del(ctx context.Context, keys ...string) *redis.IntCmd {
 		}
 	}
 	return redis.NewIntResult(n, nil)
+}
+
+// ---- commands ttlrds.go does not issue today but a refactor may reasonably reach for.  They
+// have the server's semantics, so such a refactor is judged on what the cache then answers.
+
+func (f *fakeRedis) GetEx(ctx context.Context, key string, d time.Duration) *redis.StringCmd {
+	f.gate(ctx)
+	f.mu.Lock()
+	defer f.mu.Unlock()
+	if err := f.refuse(ctx, "getex"); err != nil {
+		return redis.NewStringResult("", err)
+	}
+	e, ok := f.live(key)
+	if !ok {
+		f.logf("getex %s", short(key))
+		return redis.NewStringResult("", redis.Nil)
+	}
+	switch {
+	case d > 0:
+		ms, arg := pxOf(d)
+		f.logf("getex %s %s (dur=%dns)", short(key), arg, int64(d))
+		e.exp = f.nowMs() + ms
+	case d == 0:
+		f.logf("getex %s persist", short(key))
+		e.exp = 0
+	default:
+		f.logf("getex %s", short(key))
+	}
+	f.data[key] = e
+	return redis.NewStringResult(e.val, nil)
+}
+
+func (f *fakeRedis) SetEx(ctx context.Context, key string, value interface{}, d time.Duration) *redis.StatusCmd {
+	f.gate(ctx)
+	f.mu.Lock()
+	defer f.mu.Unlock()
+	if err := f.refuse(ctx, "setex"); err != nil {
+		return redis.NewStatusResult("", err)
+	}
+	s := formatSec(d)
+	f.logf("setex %s %d (dur=%dns)", short(key), s, int64(d))
+	if s <= 0 {
+		return redis.NewStatusResult("", fmt.Errorf("ERR invalid expire time in 'setex' command"))
+	}
+	f.data[key] = fentry{val: str(value), exp: f.nowMs() + s*1000}
+	return redis.NewStatusResult("OK", nil)
+}
+
+func (f *fakeRedis) SetXX(ctx context.Context, key string, value interface{}, d time.Duration) *redis.BoolCmd {
+	f.gate(ctx)
+	f.mu.Lock()
+	defer f.mu.Unlock()
+	if err := f.refuse(ctx, "set xx"); err != nil {
+		return redis.NewBoolResult(false, err)
+	}
+	old, had := f.live(key)
+	e := fentry{val: str(value)}
+	switch {
+	case d > 0:
+		ms, arg := pxOf(d)
+		f.logf("set %s %s xx (dur=%dns)", short(key), arg, int64(d))
+		e.exp = f.nowMs() + ms
+	case d == redis.KeepTTL:
+		f.logf("set %s keepttl xx", short(key))
+		e.exp = old.exp
+	default:
+		f.logf("set %s xx (dur=%dns)", short(key), int64(d))
+	}
+	if !had {
+		return redis.NewBoolResult(false, nil)
+	}
+	f.data[key] = e
+	return redis.NewBoolResult(true, nil)
+}
+
+func (f *fakeRedis) SetArgs(ctx context.Context, key string, value interface{}, a redis.SetArgs) *redis.StatusCmd {
+	f.gate(ctx)
+	f.mu.Lock()
+	defer f.mu.Unlock()
+	if err := f.refuse(ctx, "set(args)"); err != nil {
+		return redis.NewStatusResult("", err)
+	}
+	if !a.ExpireAt.IsZero() || a.Get {
+		tr.Fatal("fake redis: SET with EXAT/GET is not implemented")
+	}
+	old, had := f.live(key)
+	f.logf("set %s keepttl=%v ttl=%dns mode=%q", short(key), a.KeepTTL, int64(a.TTL), a.Mode)
+	if (a.Mode == "NX" || a.Mode == "nx") && had || (a.Mode == "XX" || a.Mode == "xx") && !had {
+		return redis.NewStatusResult("", redis.Nil)
+	}
+	e := fentry{val: str(value)}
+	if a.KeepTTL && had {
+		e.exp = old.exp
+	}
+	if a.TTL > 0 {
+		ms, _ := pxOf(a.TTL)
+		e.exp = f.nowMs() + ms
+	}
+	f.data[key] = e
+	return redis.NewStatusResult("OK", nil)
+}
+
+func (f *fakeRedis) Exists(ctx context.Context, keys ...string) *redis.IntCmd {
+	f.gate(ctx)
+	f.mu.Lock()
+	defer f.mu.Unlock()
+	if err := f.refuse(ctx, "exists"); err != nil {
+		return redis.NewIntResult(0, err)
+	}
+	var n int64
+	for _, k := range keys {
+		f.logf("exists %s", short(k))
+		if _, ok := f.live(k); ok {
+			n++
+		}
+	}
+	return redis.NewIntResult(n, nil)
+}
+
+func (f *fakeRedis) Unlink(ctx context.Context, keys ...string) *redis.IntCmd {
+	return f.Del(ctx, keys...)
+}
+
+func (f *fakeRedis) Persist(ctx context.Context, key string) *redis.BoolCmd {
+	f.gate(ctx)
+	f.mu.Lock()
+	defer f.mu.Unlock()
+	if err := f.refuse(ctx, "persist"); err != nil {
+		return redis.NewBoolResult(false, err)
+	}
+	f.logf("persist %s", short(key))
+	e, ok := f.live(key)
+	if !ok || e.exp == 0 {
+		return redis.NewBoolResult(false, nil)
+	}
+	e.exp = 0
+	f.data[key] = e
+	return redis.NewBoolResult(true, nil)
+}
+
+func (f *fakeRedis) PExpire(ctx context.Context, key string, d time.Duration) *redis.BoolCmd {
+	f.gate(ctx)
+	f.mu.Lock()
+	defer f.mu.Unlock()
+	if err := f.refuse(ctx, "pexpire"); err != nil {
+		return redis.NewBoolResult(false, err)
+	}
+	ms := formatMs(d)
+	f.logf("pexpire %s %d (dur=%dns)", short(key), ms, int64(d))
+	e, ok := f.live(key)
+	if !ok {
+		return redis.NewBoolResult(false, nil)
+	}
+	if ms <= 0 {
+		delete(f.data, key)
+		return redis.NewBoolResult(true, nil)
+	}
+	e.exp = f.nowMs() + ms
+	f.data[key] = e
+	return redis.NewBoolResult(true, nil)
+}
+
+func (f *fakeRedis) ttlOf(ctx context.Context, what, key string) (time.Duration, error) {
+	f.gate(ctx)
+	f.mu.Lock()
+	defer f.mu.Unlock()
+	if err := f.refuse(ctx, what); err != nil {
+		return 0, err
+	}
+	f.logf("%s %s", what, short(key))
+	e, ok := f.live(key)
+	switch {
+	case !ok:
+		return -2, nil // go-redis reports the server's -2 / -1 as raw durations
+	case e.exp == 0:
+		return -1, nil
+	}
+	return time.Duration(e.exp-f.nowMs()) * time.Millisecond, nil
+}
+
+func (f *fakeRedis) TTL(ctx context.Context, key string) *redis.DurationCmd {
+	d, err := f.ttlOf(ctx, "ttl", key)
+	if d > 0 {
+		d = (d + time.Second/2) / time.Second * time.Second
+	}
+	return redis.NewDurationResult(d, err)
+}
+
+func (f *fakeRedis) PTTL(ctx context.Context, key string) *redis.DurationCmd {
+	d, err := f.ttlOf(ctx, "pttl", key)
+	return redis.NewDurationResult(d, err)
+}
+
+func (f *fakeRedis) Keys(ctx context.Context, pattern string) *redis.StringSliceCmd {
+	f.gate(ctx)
+	f.mu.Lock()
+	defer f.mu.Unlock()
+	if err := f.refuse(ctx, "keys"); err != nil {
+		return redis.NewStringSliceResult(nil, err)
+	}
+	f.logf("keys %s", pattern)
+	if !strings.HasSuffix(pattern, "*") || strings.ContainsAny(strings.TrimSuffix(pattern, "*"), "*?[\\") {
+		return redis.NewStringSliceResult(nil, fmt.Errorf("fake redis: unsupported pattern %q", pattern))
+	}
+	pre := strings.TrimSuffix(pattern, "*")
+	out := make([]string, 0)
+	for k := range f.data {
+		if _, ok := f.live(k); ok && strings.HasPrefix(k, pre) {
+			out = append(out, k)
+		}
+	}
+	sort.Strings(out)
+	return redis.NewStringSliceResult(out, nil)
+}
+
+// fakeLacks recognises, in the stack of a recovered panic, a call of a command this fake does
+// not implement (a promoted method of the nil embedded interface).  That says nothing about the
+// cache: it is a limit of the harness (exit 2), not an observation.
+func fakeLacks(stack string) string {
+	const mark = "main.(*fakeRedis)."
+	for rest := stack; ; {
+		i := strings.Index(rest, mark)
+		if i < 0 {
+			return ""
+		}
+		rest = rest[i+len(mark):]
+		j := strings.IndexAny(rest, "(.\n")
+		if j < 0 {
+			return ""
+		}
+		if name := rest[:j]; !implemented[name] {
+			return name
+		}
+	}
+}
+
+var implemented = map[string]bool{"Set": true, "SetNX": true, "Get": true, "GetDel": true, "Expire": true,
+	"Del": true, "Scan": true, "GetEx": true, "SetEx": true, "SetXX": true, "SetArgs": true, "Exists": true,
+	"Unlink": true, "Persist": true, "PExpire": true, "TTL": true, "PTTL": true, "Keys": true,
+	"refuse": true, "gate": true, "nowMs": true, "logf": true, "take": true, "live": true,
+	"scanProcess": true, "ttlOf": true}
+
+func onPanic(p interface{}) tr.E {
+	if name := fakeLacks(string(debug.Stack())); name != "" {
+		tr.Fatal("the fake redis server does not implement %s (called by the cache): extend the fake", name)
+	}
+	return rp(fmt.Sprintf("panic: %v", p), 0)
 }
 
 // Scan pages the key space the way a server does: the cursor walks ALL keys of the database in a
@@ -1336,7 +1597,7 @@ func race(s *sut, progs [][]act) ([]tr.E, int) {
 		runtime.Gosched()
 	}
 	atomic.StoreInt32(&start, 1)
-	timer := time.NewTimer(watchdog)
+	timer := time.NewTimer(watchdogPeriod())
 	defer timer.Stop()
 	stuck := 0
 	for n := 0; n < len(progs) && stuck == 0; {
@@ -1346,6 +1607,7 @@ func race(s *sut, progs [][]act) ([]tr.E, int) {
 		case <-timer.C:
 			stuck = len(progs) - n
 			s.dead = true
+			noteStuck()
 		}
 	}
 	mu.Lock()
@@ -1571,7 +1833,7 @@ func runRdsConc(w *tr.W, rng *rand.Rand, i int) {
 		// next waits for the running caller to park at a gate or to finish; a caller that does
 		// neither within the watchdog is reported, not waited for
 		next := func() bool {
-			t := time.NewTimer(watchdog)
+			t := time.NewTimer(watchdogPeriod())
 			defer t.Stop()
 			select {
 			case sg := <-sc.ev:
@@ -1579,6 +1841,7 @@ func runRdsConc(w *tr.W, rng *rand.Rand, i int) {
 				return true
 			case <-t.C:
 				stuck++
+				noteStuck()
 				return false
 			}
 		}
@@ -1655,41 +1918,47 @@ func main() {
 
 	w := tr.Create(*out)
 	for i, f := range planFiles(*plans) {
+		if giveUp() {
+			break
+		}
 		p := readPlan(f)
 		if len(p) == 0 || p[0].Op != "init" {
 			tr.Fatal("plan %s does not start with init", f)
 		}
 		runMem(w, "plan:"+filepath.Base(f), p[0].Size, p[0].Dttl, p[0].Nk, p[0].Now, i, p[1:])
 	}
-	for i := 0; i < *nhist; i++ {
+	for i := 0; i < *nhist && !giveUp(); i++ {
 		randMem(w, rng, i, *maxops)
 	}
 	w.Close()
 
 	bw := tr.Create(*both)
 	for i, f := range planFiles(*plansr) {
+		if giveUp() {
+			break
+		}
 		p := readPlan(f)
 		if len(p) == 0 || p[0].Op != "init" {
 			tr.Fatal("plan %s does not start with init", f)
 		}
 		runBoth(bw, "planr:"+filepath.Base(f), p[0].Size, p[0].Dttl, p[0].Nk, p[0].Now, i, p[1:])
 	}
-	for i := 0; i < *nboth; i++ {
+	for i := 0; i < *nboth && !giveUp(); i++ {
 		randBoth(bw, rng, i, *maxops)
 	}
-	for i := 0; i < *nrds; i++ {
+	for i := 0; i < *nrds && !giveUp(); i++ {
 		randRds(bw, rng, i, *maxops)
 	}
 	bw.Close()
 
 	cw := tr.Create(*conc)
-	for i := 0; i < *nconc; i++ {
+	for i := 0; i < *nconc && !giveUp(); i++ {
 		runConc(cw, rng, i)
 	}
-	for i := 0; i < *nrconc; i++ {
+	for i := 0; i < *nrconc && !giveUp(); i++ {
 		runRdsConc(cw, rng, i)
 	}
-	for i := 0; i < *ncold; i++ {
+	for i := 0; i < *ncold && !giveUp(); i++ {
 		runCold(cw, rng, i)
 	}
 	cw.Close()
